@@ -3,7 +3,8 @@ import Nv.Model.C19
 import Nv.Gen.C19
 /-!
 oracle_c19 — line protocol (the configuration is the one regenerated from the source, `Nv.Gen.C19.cfg`):
-  `new cap=<n> mock=<0|1> len=<int> maxc=<int> maxv=<int> ttlx=<0|1> minb=<0|1> winr=<0|1> smsfail=<0|1>` → `new`
+  `new cap=<n> mock=<0|1> len=<int> maxc=<int> maxv=<int> ttl=<ms> mini=<ms> win=<ms> smsfail=<0|1>` → `new`   (durations: integers, any sign, ≤ 15 digits; clock at 0)
+  `tick <ms>` → `now=<ms>`   (the clock reads <ms> from now on; a reading below the current one is ignored)
   `send <area> <phone>` → `ok h<k>` | `smsfail h<k>` | `err:tooFreq` | `err:countLimit` | `panic`
   `verify <area> <phone> <cur|wrong|c<k>|lit:<text>>[^<mod>] <hcur|h<k>|hx|h->[^<mod>]` (mod ∈ U sp ts tr ch z fw: a near miss of the referenced value) →
         `ok` | `err:notExist` | `err:retryLimit` | `err:notMatch` | `err:hashNotMatch` | `err:timeout`
@@ -22,7 +23,7 @@ structure OState where
   cur : List ((Str × Str) × (Code × Nat))  -- code and hash of the last accepted send per (area, phone) pair
   sends : List (Nat × Code)          -- code of accepted send k
 
-def OState.init : OState := ⟨false, ⟨0, false, 0, 0, 0, false, false, false, false⟩, State.init, [], []⟩
+def OState.init : OState := ⟨false, ⟨0, false, 0, 0, 0, 0, 0, 0, false⟩, State.init, [], []⟩
 
 def tok (s : String) : Str := if s == "_" then [] else s.toList
 
@@ -33,6 +34,14 @@ def natOf (l : Str) : Option Nat :=
 def intOf : Str → Option Int
   | '-' :: rest => (natOf rest).map (fun n => - (n : Int))
   | l => (natOf l).map (fun n => (n : Int))
+
+/-- milliseconds: 1…15 digits -/
+def msOf (l : Str) : Option Nat :=
+  if l.length = 0 || l.length > 15 || !l.all Char.isDigit then none
+  else some (l.foldl (fun acc c => acc * 10 + (c.toNat - '0'.toNat)) 0)
+def durOf : Str → Option Int
+  | '-' :: rest => (msOf rest).map (fun n => - (n : Int))
+  | l => (msOf l).map (fun n => (n : Int))
 
 def field (name : String) (w : String) : Option Str :=
   let p := (name ++ "=").toList
@@ -49,9 +58,9 @@ def parseNew (ws : List String) : Option Params :=
     let len ← (field "len" b).bind intOf
     let maxc ← (field "maxc" c).bind intOf
     let maxv ← (field "maxv" d).bind intOf
-    let ttlx ← (field "ttlx" e).bind boolOf
-    let minb ← (field "minb" f).bind boolOf
-    let winr ← (field "winr" g).bind boolOf
+    let ttlx ← (field "ttl" e).bind durOf
+    let minb ← (field "mini" f).bind durOf
+    let winr ← (field "win" g).bind durOf
     let sf ← (field "smsfail" h).bind boolOf
     pure ⟨cap, mock, len, maxc, maxv, ttlx, minb, winr, sf⟩
   | _ => none
@@ -142,6 +151,11 @@ def step (o : OState) (line : String) : OState × String :=
     match parseNew rest with
     | some pr => ({ OState.init with inited := true, pr := pr }, "new")
     | none => (OState.init, "bad-op")
+  | ["tick", t] =>
+    if !o.inited then (o, "bad-op") else
+    match msOf t.toList with
+    | some t => let st := advance t o.st; ({ o with st := st }, s!"now={st.now}")
+    | none => (o, "bad-op")
   | ["send", a, p] =>
     if !o.inited then (o, "bad-op") else
     let (a, p) := (tok a, tok p)
